@@ -494,6 +494,26 @@ impl<'a> Gen<'a> {
                     }
                 }
             }
+            21 if self.rng.chance(1, 3) => {
+                // R7RS 4.2.5: a promise that forces itself re-entrantly keeps the first value delivered
+                self.tag("delay-force");
+                self.tag("reentrant-force");
+                let pn = self.fresh("pr");
+                let cn = self.fresh("cnt");
+                let lim = self.rng.usize(4) as i64;
+                let step = 1 + self.rng.usize(9) as i64;
+                let body = list(vec![
+                    sym("begin"),
+                    list(vec![sym("set!"), sym(&cn), call("+", vec![sym(&cn), int(1)])]),
+                    list(vec![sym("if"), call(">", vec![sym(&cn), int(lim)]), sym(&cn), call("+", vec![call("force", vec![sym(&pn)]), int(step)])]),
+                ]);
+                list(vec![
+                    sym("let"),
+                    list(vec![list(vec![sym(&cn), int(0)]), list(vec![sym(&pn), Cell::Bool(false)])]),
+                    list(vec![sym("set!"), sym(&pn), call("delay", vec![body])]),
+                    call("+", vec![call("force", vec![sym(&pn)]), call("*", vec![int(100), call("force", vec![sym(&pn)])]), call("*", vec![int(10000), sym(&cn)])]),
+                ])
+            }
             21 => {
                 self.tag("delay-force");
                 let pn = self.fresh("pr");
